@@ -16,13 +16,16 @@ EXTENDS Integers, Sequences, FiniteSets, TLC, Json
 
 CONSTANTS Types,      \* agent type names
           Vals,       \* menu of values of the numeric agent property "v" (integers; value = v/2)
-          Configs,    \* menu of configure_agents specs: sequences of <<type, count>>
+          Spawn,      \* type -> Seq of types of the agents its initialize() creates (nested create_agent)
+          Configs,    \* menu of configure_agents specs: sequences of <<type, count, v>>
           MaxIds,     \* bound on the number of ids ever handed out
           MaxEvents,  \* bound on the number of events ever created
           MaxSteps,   \* bound on scheduler steps
           Delays,     \* menu of event delays, in 1/100 time units
-          Dt100,      \* dt in 1/100 time units
-          RunSpecs,   \* menu of <<start, stop, collect_data>> for whole runs
+          Dt100,      \* initial dt in 1/100 time units
+          RunSpecs,   \* menu of <<start, stop, collect_data, dt>> for whole runs
+          MaxPlans,   \* bound on planned deletions / creations / self-changes
+          PlanAhead,  \* plans are made for steps step..step+PlanAhead
           Ops,        \* names of the enabled operations
           L           \* bound on Len(hist) in generator configurations
 
@@ -36,10 +39,11 @@ VARIABLES agents,   \* Seq of [id, ty, st, v, inbox] in creation order (Model.ag
           plan,     \* Seq of [snd, eid, k]: agent snd sends event eid from its act() in step index k
           handled,  \* history: Seq of [eid, by, at]
           alive,    \* history: eid -> was its receiver alive (and handling the name) when it fell due
+          dt,       \* Model.dt in 1/100 time units
           hist      \* observation log
 
-core == <<agents, nextId, tmap, mq, step, evs, nsent, plan>>
-vars == <<agents, nextId, tmap, mq, step, evs, nsent, plan, handled, alive, hist>>
+core == <<agents, nextId, tmap, mq, step, evs, nsent, plan, dt>>
+vars == <<agents, nextId, tmap, mq, step, evs, nsent, plan, handled, alive, dt, hist>>
 
 States == {"active", "idle"}
 Names  == {"ping", "pong"}
@@ -50,7 +54,7 @@ None == 0 - 1
 Min(S) == CHOOSE x \in S : \A y \in S : x <= y
 Max(S) == CHOOSE x \in S : \A y \in S : x >= y
 DefaultV == Min(Vals)
-DSteps(d) == (d + Dt100 - 1) \div Dt100          \* ceil(delay / dt)
+DSteps(d) == (d + dt - 1) \div dt                \* ceil(delay / dt)
 
 Ids(ags) == {ags[i].id : i \in DOMAIN ags}
 Pos(id, ags) == CHOOSE i \in DOMAIN ags : ags[i].id = id
@@ -108,7 +112,48 @@ Deliver(due, ags) ==     \* due: Seq of eids in queue order; an event for a dead
          IN IF r \in Ids(ags) THEN Deliver(Tail(due), [ags EXCEPT ![Pos(r, ags)].inbox = Append(@, e)])
             ELSE Deliver(Tail(due), ags)
 
-\* S = [agents, mq, step, evs, nsent, plan]; returns the new S plus what the step did
+\* create_agent: the factory gets id nid, next_agent_id is bumped, initialize() runs (and may itself
+\* create agents, which are appended *before* their parent), then the agent is appended
+Kids(ty, nid) == [k \in DOMAIN Spawn[ty] |-> [id |-> nid + k, ty |-> Spawn[ty][k], st |-> "active", v |-> DefaultV, inbox |-> <<>>]]
+Made(ty, v, nid) == Kids(ty, nid) \o << [id |-> nid, ty |-> ty, st |-> "active", v |-> v, inbox |-> <<>>] >>
+RECURSIVE AddAll(_, _)
+AddAll(tm, new) == IF new = <<>> THEN tm ELSE AddAll([tm EXCEPT ![Head(new).ty] = Append(@, Head(new).id)], Tail(new))
+\* delete_agents: new list object without the ids; the type map is rebuilt for the types of removed agents
+Without(ids, ags) == SelectSeq(ags, LAMBDA a : a.id \notin ids)
+Rebuilt(ids, ags, tm) == [ty \in Types |-> IF \E i \in DOMAIN ags : ags[i].id \in ids /\ ags[i].ty = ty
+                                           THEN IdsOfType(ty, Without(ids, ags)) ELSE tm[ty]]
+
+\* What one agent does in act(): its planned actions for this step, in plan order.
+\*   "send": enqueue event eid;  "del": model.delete_agent(arg);  "new": model.create_agent(arg);
+\*   "st" / "val": the agent changes its own state / the value of its property v
+\* The scheduler loop is `for agent in model.agents`: it iterates over the list *object* it started
+\* with.  delete_agents rebinds model.agents to a new list (the loop keeps walking the old one, so a
+\* victim later in the list still handles and acts in this step); create_agent appends to the current
+\* list, which is seen by the loop only while no deletion has rebound it (ListIteration).
+RECURSIVE DoPlans(_, _)
+DoPlans(todo, A) ==
+    IF todo = <<>> THEN A
+    ELSE LET p == Head(todo) IN
+         DoPlans(Tail(todo),
+           CASE p.kind = "send" -> [A EXCEPT !.fired = Append(@, p.eid)]
+             [] p.kind = "del"  -> [A EXCEPT !.reg = Without({p.arg}, A.reg), !.tm = Rebuilt({p.arg}, A.reg, A.tm),
+                                             !.rebound = TRUE, !.gone = @ \cup ({p.arg} \cap Ids(A.reg))]
+             [] p.kind = "st"   -> [A EXCEPT !.reg = [i \in DOMAIN @ |-> IF @[i].id = p.snd THEN [@[i] EXCEPT !.st = p.arg] ELSE @[i]]]
+             [] p.kind = "val"  -> [A EXCEPT !.reg = [i \in DOMAIN @ |-> IF @[i].id = p.snd THEN [@[i] EXCEPT !.v = p.arg] ELSE @[i]]]
+             [] p.kind = "new"  -> IF A.nid + 1 + Len(Spawn[p.arg]) > MaxIds THEN A
+                                   ELSE LET made == Made(p.arg, DefaultV, A.nid) IN
+                                        [A EXCEPT !.reg = @ \o made, !.tm = AddAll(@, made),
+                                                  !.iter = IF A.rebound THEN @ ELSE @ \o made,
+                                                  !.nid = @ + Len(made), !.born = @ \cup Ids(made)])
+RECURSIVE ActLoop(_, _, _)
+ActLoop(i, A, S) ==
+    IF i > Len(A.iter) THEN A
+    ELSE LET me == A.iter[i].id
+             todo == SelectSeq(S.plan, LAMBDA x : x.snd = me /\ x.k = S.step)
+             A1 == [A EXCEPT !.calls = @ \o <<"h" \o ToString(me), "a" \o ToString(me)>>]
+         IN ActLoop(i + 1, DoPlans(todo, A1), S)
+
+\* S = [agents, mq, step, evs, nsent, plan, nid, tm]; returns the new S plus what the step did
 StepF(S) ==
     LET dueQ   == SelectSeq(S.mq, LAMBDA q : q.rem = 0)
         due    == [i \in DOMAIN dueQ |-> dueQ[i].eid]
@@ -118,25 +163,25 @@ StepF(S) ==
         hOf(i) == LET ib == SelectSeq(ags1[i].inbox, LAMBDA e : Handles(ags1[i].st, S.evs[e].name))
                   IN [k \in DOMAIN ib |-> [eid |-> ib[k], by |-> ags1[i].id, at |-> S.step]]
         hNow   == Flat([i \in DOMAIN ags1 |-> hOf(i)])
-        fOf(i) == LET p == SelectSeq(S.plan, LAMBDA x : x.snd = ags1[i].id /\ x.k = S.step)
-                  IN [k \in DOMAIN p |-> p[k].eid]
-        fired  == Flat([i \in DOMAIN ags1 |-> fOf(i)])           \* in agent order, then plan order
+        clean  == [i \in DOMAIN ags1 |-> [ags1[i] EXCEPT !.inbox = <<>>]]
+        A      == ActLoop(1, [iter |-> clean, reg |-> clean, rebound |-> FALSE, nid |-> S.nid, tm |-> S.tm,
+                              fired |-> <<>>, calls |-> <<"begin">>, gone |-> {}, born |-> {}], S)
+        fired  == A.fired                                         \* in agent order, then plan order
         evs2   == [e \in DOMAIN S.evs |->
                      IF \E k \in DOMAIN fired : fired[k] = e
                      THEN [S.evs[e] EXCEPT !.at = S.step + 1,
                                            !.seq = S.nsent + (CHOOSE k \in DOMAIN fired : fired[k] = e)]
                      ELSE S.evs[e]]
         newQ   == [k \in DOMAIN fired |-> [eid |-> fired[k], rem |-> S.evs[fired[k]].ds]]
-        calls  == <<"begin">> \o Flat([i \in DOMAIN ags1 |-> <<"h" \o ToString(ags1[i].id), "a" \o ToString(ags1[i].id)>>]) \o <<"end">>
         dueAlive == {e \in {due[i] : i \in DOMAIN due} :
                         S.evs[e].rcv \in Ids(S.agents)
                         /\ Handles(S.agents[Pos(S.evs[e].rcv, S.agents)].st, S.evs[e].name)}
-    IN [S |-> [agents |-> [i \in DOMAIN ags1 |-> [ags1[i] EXCEPT !.inbox = <<>>]],
-               mq |-> newQ \o later, step |-> S.step + 1, evs |-> evs2,
-               nsent |-> S.nsent + Len(fired), plan |-> S.plan],
-        handled |-> hNow, calls |-> calls, due |-> {due[i] : i \in DOMAIN due}, dueAlive |-> dueAlive]
+    IN [S |-> [agents |-> A.reg, mq |-> newQ \o later, step |-> S.step + 1, evs |-> evs2,
+               nsent |-> S.nsent + Len(fired), plan |-> S.plan, nid |-> A.nid, tm |-> A.tm],
+        handled |-> hNow, calls |-> A.calls \o <<"end">>, due |-> {due[i] : i \in DOMAIN due}, dueAlive |-> dueAlive,
+        gone |-> A.gone, born |-> A.born]
 
-Cur == [agents |-> agents, mq |-> mq, step |-> step, evs |-> evs, nsent |-> nsent, plan |-> plan]
+Cur == [agents |-> agents, mq |-> mq, step |-> step, evs |-> evs, nsent |-> nsent, plan |-> plan, nid |-> nextId, tm |-> tmap]
 HObs(h, E) == [i \in DOMAIN h |-> [eid |-> h[i].eid, by |-> h[i].by, at |-> E[h[i].eid].at, seq |-> E[h[i].eid].seq]]
 
 (********************************* actions **********************************)
@@ -144,74 +189,94 @@ Log(rec) == hist' = Append(hist, rec)
 Q1 == Queries(agents', tmap', nextId')
 
 Create(ty, v) ==
-    /\ "Create" \in Ops /\ nextId < MaxIds
-    /\ agents' = Append(agents, [id |-> nextId, ty |-> ty, st |-> "active", v |-> v, inbox |-> <<>>])
-    /\ nextId' = nextId + 1
-    /\ tmap' = [tmap EXCEPT ![ty] = Append(@, nextId)]
-    /\ UNCHANGED <<mq, step, evs, nsent, plan, handled, alive>>
+    /\ "Create" \in Ops /\ nextId + 1 + Len(Spawn[ty]) <= MaxIds
+    /\ agents' = agents \o Made(ty, v, nextId)
+    /\ nextId' = nextId + 1 + Len(Spawn[ty])
+    /\ tmap' = AddAll(tmap, Made(ty, v, nextId))
+    /\ UNCHANGED <<mq, step, evs, nsent, plan, handled, alive, dt>>
     /\ Log([op |-> "Create", ty |-> ty, v |-> v, q |-> Q1])
 
 Delete(ids) ==       \* Model.delete_agents(ids); ids may contain dead ids
     /\ "Delete" \in Ops /\ ids # {}
-    /\ agents' = SelectSeq(agents, LAMBDA a : a.id \notin ids)
-    /\ tmap' = [ty \in Types |-> IdsOfType(ty, agents')]
-    /\ UNCHANGED <<nextId, mq, step, evs, nsent, plan, handled, alive>>
+    /\ agents' = Without(ids, agents)
+    /\ tmap' = Rebuilt(ids, agents, tmap)
+    /\ UNCHANGED <<nextId, mq, step, evs, nsent, plan, handled, alive, dt>>
     /\ Log([op |-> "Delete", ids |-> ids, q |-> Q1])
 
 RECURSIVE Populate(_, _, _)
 Populate(cfg, ags, nid) ==    \* create_agents for each spec entry, in order
     IF cfg = <<>> THEN [agents |-> ags, nid |-> nid]
     ELSE LET ty == Head(cfg)[1]  n == Head(cfg)[2]
-             new == [k \in 1..n |-> [id |-> nid + k - 1, ty |-> ty, st |-> "active", v |-> DefaultV, inbox |-> <<>>]]
-         IN Populate(Tail(cfg), ags \o new, nid + n)
-CfgSize(cfg) == SumSeq([i \in DOMAIN cfg |-> cfg[i][2]])
+         IN IF n = 0 THEN Populate(Tail(cfg), ags, nid)
+            ELSE Populate(<< <<ty, n - 1, Head(cfg)[3]>> >> \o Tail(cfg), ags \o Made(ty, Head(cfg)[3], nid), nid + 1 + Len(Spawn[ty]))
+CfgSize(cfg) == SumSeq([i \in DOMAIN cfg |-> cfg[i][2] * (1 + Len(Spawn[cfg[i][1]]))])
 
 Configure(cfg) ==    \* Model.configure_agents: drop every agent, then create; ids are not reused
     /\ "Configure" \in Ops /\ nextId + CfgSize(cfg) <= MaxIds
     /\ LET r == Populate(cfg, <<>>, nextId)
        IN /\ agents' = r.agents /\ nextId' = r.nid
           /\ tmap' = [ty \in Types |-> IdsOfType(ty, r.agents)]
-    /\ UNCHANGED <<mq, step, evs, nsent, plan, handled, alive>>
+    /\ UNCHANGED <<mq, step, evs, nsent, plan, handled, alive, dt>>
     /\ Log([op |-> "Configure", cfg |-> cfg, q |-> Q1])
 
 Reset ==             \* Model.reset
     /\ "Reset" \in Ops /\ agents # <<>>
     /\ agents' = <<>> /\ tmap' = [ty \in Types |-> <<>>]
-    /\ UNCHANGED <<nextId, mq, step, evs, nsent, plan, handled, alive>>
+    /\ UNCHANGED <<nextId, mq, step, evs, nsent, plan, handled, alive, dt>>
     /\ Log([op |-> "Reset", q |-> Q1])
 
 SetState(id, st) ==
     /\ "SetState" \in Ops /\ id \in Ids(agents) /\ agents[Pos(id, agents)].st # st
     /\ agents' = [agents EXCEPT ![Pos(id, agents)].st = st]
-    /\ UNCHANGED <<nextId, tmap, mq, step, evs, nsent, plan, handled, alive>>
+    /\ UNCHANGED <<nextId, tmap, mq, step, evs, nsent, plan, handled, alive, dt>>
     /\ Log([op |-> "SetState", id |-> id, st |-> st, q |-> Q1])
 
 SetVal(id, v) ==
     /\ "SetVal" \in Ops /\ id \in Ids(agents) /\ agents[Pos(id, agents)].v # v
     /\ agents' = [agents EXCEPT ![Pos(id, agents)].v = v]
-    /\ UNCHANGED <<nextId, tmap, mq, step, evs, nsent, plan, handled, alive>>
+    /\ UNCHANGED <<nextId, tmap, mq, step, evs, nsent, plan, handled, alive, dt>>
     /\ Log([op |-> "SetVal", id |-> id, v |-> v, q |-> Q1])
+
+NewEv(rcv, name, d, at, seq) == [rcv |-> rcv, name |-> name, ds |-> DSteps(d), at |-> at, seq |-> seq]
 
 Send(rcv, name, d) ==    \* Model.enqueue_event from outside a step (rcv may be a dead or never-used id)
     /\ "Send" \in Ops /\ Len(evs) < MaxEvents
-    /\ evs' = Append(evs, [rcv |-> rcv, name |-> name, ds |-> DSteps(d), at |-> step, seq |-> nsent + 1])
+    /\ evs' = Append(evs, NewEv(rcv, name, d, step, nsent + 1))
     /\ nsent' = nsent + 1
     /\ mq' = Append(mq, [eid |-> Len(evs) + 1, rem |-> DSteps(d)])
     /\ alive' = alive @@ ((Len(evs) + 1) :> "pending")
-    /\ UNCHANGED <<agents, nextId, tmap, step, plan, handled>>
+    /\ UNCHANGED <<agents, nextId, tmap, step, plan, handled, dt>>
     /\ Log([op |-> "Send", eid |-> Len(evs) + 1, rcv |-> rcv, name |-> name, d |-> d])
 
 Plan(snd, rcv, name, d, k) ==   \* agent snd will send the event from inside its act() in step index k
     /\ "Plan" \in Ops /\ Len(evs) < MaxEvents /\ snd \in Ids(agents) /\ k >= step
-    /\ evs' = Append(evs, [rcv |-> rcv, name |-> name, ds |-> DSteps(d), at |-> None, seq |-> 0])
-    /\ plan' = Append(plan, [snd |-> snd, eid |-> Len(evs) + 1, k |-> k])
+    /\ evs' = Append(evs, NewEv(rcv, name, d, None, 0))
+    /\ plan' = Append(plan, [snd |-> snd, kind |-> "send", eid |-> Len(evs) + 1, k |-> k, arg |-> None])
     /\ alive' = alive @@ ((Len(evs) + 1) :> "pending")
-    /\ UNCHANGED <<agents, nextId, tmap, mq, step, nsent, handled>>
+    /\ UNCHANGED <<agents, nextId, tmap, mq, step, nsent, handled, dt>>
     /\ Log([op |-> "Plan", eid |-> Len(evs) + 1, snd |-> snd, rcv |-> rcv, name |-> name, d |-> d, k |-> k])
+
+PlanDel(snd, victim, k) ==      \* agent snd will call model.delete_agent(victim) from inside its act() in step k
+    /\ "PlanDel" \in Ops /\ snd \in Ids(agents) /\ k >= step /\ Len(plan) < MaxPlans
+    /\ plan' = Append(plan, [snd |-> snd, kind |-> "del", eid |-> 0, k |-> k, arg |-> victim])
+    /\ UNCHANGED <<agents, nextId, tmap, mq, step, evs, nsent, handled, alive, dt>>
+    /\ Log([op |-> "PlanDel", snd |-> snd, victim |-> victim, k |-> k])
+
+PlanNew(snd, ty, k) ==          \* agent snd will call model.create_agent(ty) from inside its act() in step k
+    /\ "PlanNew" \in Ops /\ snd \in Ids(agents) /\ k >= step /\ Len(plan) < MaxPlans
+    /\ plan' = Append(plan, [snd |-> snd, kind |-> "new", eid |-> 0, k |-> k, arg |-> ty])
+    /\ UNCHANGED <<agents, nextId, tmap, mq, step, evs, nsent, handled, alive, dt>>
+    /\ Log([op |-> "PlanNew", snd |-> snd, ty |-> ty, k |-> k])
+
+PlanSet(snd, kind, x, k) ==     \* agent snd will set its own state / value from inside its act() in step k
+    /\ "PlanSet" \in Ops /\ snd \in Ids(agents) /\ k >= step /\ Len(plan) < MaxPlans
+    /\ plan' = Append(plan, [snd |-> snd, kind |-> kind, eid |-> 0, k |-> k, arg |-> x])
+    /\ UNCHANGED <<agents, nextId, tmap, mq, step, evs, nsent, handled, alive, dt>>
+    /\ Log([op |-> "PlanSet", snd |-> snd, kind |-> kind, x |-> x, k |-> k])
 
 Apply(r) ==
     /\ agents' = r.S.agents /\ mq' = r.S.mq /\ step' = r.S.step /\ evs' = r.S.evs
-    /\ nsent' = r.S.nsent /\ plan' = r.S.plan
+    /\ nsent' = r.S.nsent /\ plan' = r.S.plan /\ nextId' = r.S.nid /\ tmap' = r.S.tm
     /\ handled' = handled \o r.handled
     /\ alive' = [e \in DOMAIN alive |-> IF e \in r.due THEN (IF e \in r.dueAlive THEN "yes" ELSE "no") ELSE alive[e]]
 
@@ -219,43 +284,46 @@ RunStep ==           \* Model.run_step(step): one externally driven scheduler st
     /\ "RunStep" \in Ops /\ step < MaxSteps
     /\ LET r == StepF(Cur)
        IN /\ Apply(r)
-          /\ Log([op |-> "RunStep", k |-> step, t100 |-> step * Dt100, handled |-> HObs(r.handled, r.S.evs),
-                  calls |-> r.calls \o <<"collect">>, stats |-> Stats(r.S.agents), q |-> Queries(r.S.agents, tmap, nextId)])
-    /\ UNCHANGED <<nextId, tmap>>
+          /\ Log([op |-> "RunStep", k |-> step, t100 |-> step * dt, handled |-> HObs(r.handled, r.S.evs),
+                  calls |-> r.calls \o <<"collect">>, stats |-> Stats(r.S.agents), gone |-> r.gone, born |-> r.born,
+                  q |-> Queries(r.S.agents, r.S.tm, r.S.nid)])
+    /\ UNCHANGED dt
 
-\* whole run: rounds start..stop, 100/Dt100 steps per round, time = round + step*dt
-RECURSIVE RunLoop(_, _, _, _, _, _)
-RunLoop(S, rnd, s, stop, collect, acc) ==
-    \* acc = [handled, calls (Seq of [t100, calls]), stats (Seq of [t100, stats]), due, dueAlive]
+\* whole run: rounds start..stop, 100/dt steps per round, time = round + step*dt
+RECURSIVE RunLoop(_, _, _, _, _, _, _)
+RunLoop(S, rnd, s, stop, collect, d, acc) ==
+    \* acc = [handled, calls (Seq of [t100, calls]), stats (Seq of [t100, stats]), due, dueAlive, gone, born]
     IF rnd > stop THEN [S |-> S, acc |-> acc]
     ELSE LET r == StepF(S)
-             t == rnd * 100 + s * Dt100
-             last == rnd = stop /\ s = (100 \div Dt100) - 1
+             t == rnd * 100 + s * d
+             last == rnd = stop /\ s = (100 \div d) - 1
              doCollect == collect \/ last
              acc2 == [handled |-> acc.handled \o r.handled,
-                      calls |-> Append(acc.calls, [t100 |-> t, calls |-> r.calls \o (IF doCollect THEN <<"collect">> ELSE <<>>)]),
+                      calls |-> Append(acc.calls, [t100 |-> t, gone |-> r.gone, born |-> r.born,
+                                                   calls |-> r.calls \o (IF doCollect THEN <<"collect">> ELSE <<>>)]),
                       stats |-> IF doCollect THEN Append(acc.stats, [t100 |-> t, stats |-> Stats(r.S.agents)]) ELSE acc.stats,
                       due |-> acc.due \cup r.due, dueAlive |-> acc.dueAlive \cup r.dueAlive]
-         IN IF s + 1 < 100 \div Dt100 THEN RunLoop(r.S, rnd, s + 1, stop, collect, acc2)
-            ELSE RunLoop(r.S, rnd + 1, 0, stop, collect, acc2)
+         IN IF s + 1 < 100 \div d THEN RunLoop(r.S, rnd, s + 1, stop, collect, d, acc2)
+            ELSE RunLoop(r.S, rnd + 1, 0, stop, collect, d, acc2)
 
-Run(spec) ==         \* Model.run(): spec = <<start, stop, collect_data>>
-    /\ "Run" \in Ops /\ 100 % Dt100 = 0
-    /\ LET start == spec[1]  stop == spec[2]  collect == spec[3]
-           n == (stop - start + 1) * (100 \div Dt100)
+Run(spec) ==         \* Model.run_specs(start, stop, dt); Model.run(collect_data): spec = <<start, stop, collect_data, dt>>
+    /\ "Run" \in Ops /\ 100 % spec[4] = 0
+    /\ LET start == spec[1]  stop == spec[2]  collect == spec[3]  d == spec[4]
+           n == (stop - start + 1) * (100 \div d)
        IN /\ start <= stop /\ step + n <= MaxSteps
-          /\ LET res == RunLoop(Cur, start, 0, stop, collect,
+          /\ (d # dt => mq = <<>>)      \* delays in flight are counted in steps of the dt they were sent under
+          /\ dt' = d
+          /\ LET res == RunLoop(Cur, start, 0, stop, collect, d,
                                 [handled |-> <<>>, calls |-> <<>>, stats |-> <<>>, due |-> {}, dueAlive |-> {}])
              IN /\ Apply([S |-> res.S, handled |-> res.acc.handled, due |-> res.acc.due, dueAlive |-> res.acc.dueAlive])
-                /\ Log([op |-> "Run", start |-> start, stop |-> stop, collect |-> collect, k0 |-> step,
+                /\ Log([op |-> "Run", start |-> start, stop |-> stop, collect |-> collect, dt100 |-> d, k0 |-> step,
                         handled |-> HObs(res.acc.handled, res.S.evs), rounds |-> res.acc.calls, stats |-> res.acc.stats,
-                        q |-> Queries(res.S.agents, tmap, nextId)])
-    /\ UNCHANGED <<nextId, tmap>>
+                        q |-> Queries(res.S.agents, res.S.tm, res.S.nid)])
 
 Init ==
     /\ agents = <<>> /\ nextId = 0 /\ tmap = [ty \in Types |-> <<>>]
     /\ mq = <<>> /\ step = 0 /\ evs = <<>> /\ nsent = 0 /\ plan = <<>> /\ handled = <<>>
-    /\ alive = <<>> /\ hist = <<>>
+    /\ alive = <<>> /\ hist = <<>> /\ dt = Dt100
 
 DoCreate    == \E ty \in Types, v \in Vals : Create(ty, v)
 DoDelete    == \E ids \in (SUBSET (0..(nextId - 1))) : Cardinality(ids) \in {1, 2} /\ Delete(ids)
@@ -263,10 +331,15 @@ DoConfigure == \E c \in Configs : Configure(c)
 DoSetState  == \E id \in 0..(nextId - 1), st \in States : SetState(id, st)
 DoSetVal    == \E id \in 0..(nextId - 1), v \in Vals : SetVal(id, v)
 DoSend      == \E rcv \in 0..nextId, n \in Names, d \in Delays : Send(rcv, n, d)
-DoPlan      == \E snd \in 0..(nextId - 1), rcv \in 0..nextId, n \in Names, d \in Delays, k \in step..(step + 1) : Plan(snd, rcv, n, d, k)
+DoPlan      == \E snd \in 0..(nextId - 1), rcv \in 0..nextId, n \in Names, d \in Delays, k \in step..(step + PlanAhead) : Plan(snd, rcv, n, d, k)
+DoPlanDel   == \E snd \in 0..(nextId - 1), victim \in 0..(nextId - 1), k \in step..(step + PlanAhead) : PlanDel(snd, victim, k)
+DoPlanNew   == \E snd \in 0..(nextId - 1), ty \in Types, k \in step..(step + PlanAhead) : PlanNew(snd, ty, k)
+DoPlanSet   == \E snd \in 0..(nextId - 1), k \in step..(step + PlanAhead) :
+                  (\E st \in States : PlanSet(snd, "st", st, k)) \/ (\E v \in Vals : PlanSet(snd, "val", v, k))
 DoRun       == \E rs \in RunSpecs : Run(rs)
 
-Next == DoCreate \/ DoDelete \/ DoConfigure \/ Reset \/ DoSetState \/ DoSetVal \/ DoSend \/ DoPlan \/ RunStep \/ DoRun
+Next == DoCreate \/ DoDelete \/ DoConfigure \/ Reset \/ DoSetState \/ DoSetVal \/ DoSend \/ DoPlan
+        \/ DoPlanDel \/ DoPlanNew \/ DoPlanSet \/ RunStep \/ DoRun
 
 Spec == Init /\ [][Next]_vars
 
